@@ -82,6 +82,10 @@ pub fn catalogue(b: usize, m: usize) -> Vec<Fault> {
             f.push(Fault::RegsForOtherB { other_b: ob, set_b: true });
         }
     }
+    // consistent but out of range: b outside 4..=18 together with exactly 2^b registers
+    for ob in [0usize, 1, 2, 3, 19] {
+        f.push(Fault::RegsForOtherB { other_b: ob, set_b: true });
+    }
     for t in ["null", "{}", "\"abc\"", "[256]", "[-1]", "[\"x\"]", "[1.5]", "[]", "0", "[[0]]"] {
         f.push(Fault::RegsText(t.into()));
     }
